@@ -358,6 +358,15 @@ PDFStackT = PSStackType[PDFStream]
 """Types that may appear on the PDF argument stack."""
 
 
+PDFSavedState = Tuple[
+    Matrix,
+    PDFTextState,
+    PDFGraphicState,
+    Optional[PDFColorSpace],
+    Optional[PDFColorSpace],
+]
+
+
 class PDFPageInterpreter:
     """Processor for the content of a PDF page
 
@@ -415,7 +424,7 @@ class PDFPageInterpreter:
     def init_state(self, ctm: Matrix) -> None:
         """Initialize the text and graphic states for rendering a page."""
         # gstack: stack for graphical states.
-        self.gstack: List[Tuple[Matrix, PDFTextState, PDFGraphicState]] = []
+        self.gstack: List[PDFSavedState] = []
         self.ctm = ctm
         self.device.set_ctm(self.ctm)
         self.textstate = PDFTextState()
@@ -439,14 +448,18 @@ class PDFPageInterpreter:
         self.argstack = self.argstack[:-n]
         return x
 
-    def get_current_state(self) -> Tuple[Matrix, PDFTextState, PDFGraphicState]:
-        return (self.ctm, self.textstate.copy(), self.graphicstate.copy())
+    def get_current_state(self) -> "PDFSavedState":
+        # The current colour spaces belong to the graphics state as well
+        return (
+            self.ctm,
+            self.textstate.copy(),
+            self.graphicstate.copy(),
+            self.scs,
+            self.ncs,
+        )
 
-    def set_current_state(
-        self,
-        state: Tuple[Matrix, PDFTextState, PDFGraphicState],
-    ) -> None:
-        (self.ctm, self.textstate, self.graphicstate) = state
+    def set_current_state(self, state: "PDFSavedState") -> None:
+        (self.ctm, self.textstate, self.graphicstate, self.scs, self.ncs) = state
         self.device.set_ctm(self.ctm)
 
     def do_q(self) -> None:
